@@ -30,8 +30,9 @@ const UDPPKT_OUT_FIXED_HEADER_SIZE: usize =
 const UDPPKT_OUT_FIXED_HEADER_NO_LENGTH_SIZE: usize =
     UDPPKT_OUT_FIXED_HEADER_SIZE - UDPPKT_LENGTH_SIZE;
 
-const MAX_UDP_IN_PAYLOAD_SIZE: usize =
-    net_utils::MAX_UDP_PAYLOAD_SIZE - UDPPKT_IN_FIXED_HEADER_NO_LENGTH_SIZE;
+/// The length of a record that carries the largest UDP payload, the application name not counted
+const MAX_UDP_IN_RECORD_SIZE: usize =
+    net_utils::MAX_UDP_PAYLOAD_SIZE + UDPPKT_IN_FIXED_HEADER_NO_LENGTH_SIZE;
 
 pub(crate) struct Decoder {
     state: RecvState,
@@ -118,7 +119,7 @@ impl Decoder {
             header.get_u16(),
         ));
         let app_name_length = header.get_u8() as usize;
-        if self.total_length > MAX_UDP_IN_PAYLOAD_SIZE - app_name_length {
+        if self.total_length > MAX_UDP_IN_RECORD_SIZE + app_name_length {
             log_id!(
                 debug,
                 self.id,
